@@ -350,6 +350,10 @@ func (g *G) validationReply(atNs int64, st storedSpec) Reply {
 		h := Hdr{{"Date", dateAt(atNs, 0)}}
 		if g.chance(0.3) {
 			h = append(h, [2]string{"Cache-Control", "stale-if-error=" + pick(g, "0", "10", "3600")})
+		} else if g.chance(0.3) {
+			// an error reply that is itself cacheable (explicit freshness): where stale-if-error does not take it, it is
+			// the origin's full reply to the validation and replaces the stored response like any other
+			h = append(h, [2]string{"Cache-Control", pick(g, "max-age=60", "max-age=600", "public, max-age=30")})
 		}
 		return Reply{Status: st, Hdr: h, Body: "errbody", BodyFail: -1}
 	}
